@@ -111,6 +111,11 @@ func (w *World) buildCallGraph() *CallGraph {
 					}
 				}
 			case *ast.CallExpr:
+				if id, ok := s.Fun.(*ast.Ident); ok && id.Name == "recover" {
+					if _, isBuiltin := info.Uses[id].(*types.Builtin); isBuiltin {
+						n.Direct = append(n.Direct, EffectSite{"recover", "recover()", pos(s)})
+					}
+				}
 				var fn *types.Func
 				var recv ast.Expr
 				switch f := s.Fun.(type) {
@@ -231,6 +236,45 @@ func init() {
 	directiveHandlers["only-writers"] = dirOnlyWriters
 	directiveHandlers["census"] = dirCensus
 	directiveHandlers["write-before-read"] = dirWriteBeforeRead
+	directiveHandlers["callers-of"] = dirCallersOf
+}
+
+// callers-of <func> <caller>... : the functions of the repository that call <func> directly
+// are exactly among the listed ones (a new call site is a change of behaviour that wants a look)
+func dirCallersOf(r *Run, d *Directive) []*Obligation {
+	f := strings.Fields(d.Args)
+	if len(f) < 1 {
+		return dirFail(d, "callers-of", "needs: func caller...")
+	}
+	target := r.resolveFunc(f[0])
+	if target == nil {
+		return dirFail(d, "callers-of:"+f[0], "function "+f[0]+" not found in the current source")
+	}
+	allowed := map[string]bool{}
+	for _, a := range f[1:] {
+		allowed[a] = true
+	}
+	ob := &Obligation{Name: fmt.Sprintf("%s.effects/callers-of:%s", pkgShort(d.Pkg), f[0]), Func: target.Short, Kind: "effects", Tags: d.Tags,
+		Descr: fmt.Sprintf("%s is called only from: %s", f[0], strings.Join(f[1:], " ")), Solver: "callgraph", Status: "discharged"}
+	var bad, seen []string
+	for _, n := range r.callGraph().Nodes {
+		if n.Callees[target.Key] {
+			name := n.Site.pkg.Name + "." + n.Site.name
+			seen = append(seen, name)
+			if !allowed[name] {
+				bad = append(bad, name)
+			}
+		}
+	}
+	sort.Strings(seen)
+	ob.Descr += " [found: " + strings.Join(seen, " ") + "]"
+	if len(bad) > 0 {
+		sort.Strings(bad)
+		ob.Status = "failed"
+		ob.FailStatus = "unjustified"
+		ob.Detail = "called from functions that are not listed: " + strings.Join(bad, ", ")
+	}
+	return []*Obligation{ob}
 }
 
 func dirFail(d *Directive, name, msg string) []*Obligation {
